@@ -644,7 +644,10 @@ func (m *mappedFile) lookup(name string) (v *atomic.Uint64, headOff, head uint32
 	headOff = m.hdrLen + hashOff + h*4
 	head = m.load32(headOff)
 	off := head
-	for off != 0 {
+	for n := 0; off != 0; n++ {
+		if n > len(m.mapping.Data)/recordUnit {
+			return nil, 0, 0, false // cycle: corrupt file
+		}
 		ename, next, v, ok := m.entryAt(off)
 		if !ok {
 			return nil, 0, 0, false
@@ -762,9 +765,9 @@ func (m *mappedFile) newCounter(name string) (v *atomic.Uint64, m1 *mappedFile, 
 		// Check new elements in chain for duplicates.
 		old := head
 		head = m.load32(headOff)
-		for off := head; off != old; {
+		for n, off := 0, head; off != old; n++ {
 			ename, enext, v, ok := m.entryAt(off)
-			if !ok {
+			if !ok || n > len(m.mapping.Data)/recordUnit {
 				return nil, nil, errCorrupt
 			}
 			if string(ename) == name {
